@@ -800,7 +800,8 @@ func c07Reject(r *Run, npkg *packages.Package) {
 	r.curRule = "C07-REJECT"
 	info := npkg.TypesInfo
 	dataPath := modPath + "/data"
-	isTypesIs := func(e ast.Expr) (string, bool) {
+	var isTypesIs func(e ast.Expr) (string, bool)
+	isTypesIs = func(e ast.Expr) (string, bool) {
 		c, ok := ast.Unparen(e).(*ast.CallExpr)
 		if !ok || len(c.Args) != 1 {
 			return "", false
@@ -814,7 +815,121 @@ func c07Reject(r *Run, npkg *packages.Package) {
 		}
 		return exprStr(c.Args[0]), true
 	}
+	plainIs := isTypesIs
+	var wrapperOf func(c *ast.CallExpr) ([2]int, bool)
+	isTypesIs = func(e ast.Expr) (string, bool) {
+		if v, ok := plainIs(e); ok {
+			return v, true
+		}
+		if c, ok := ast.Unparen(e).(*ast.CallExpr); ok && wrapperOf != nil {
+			if idx, ok := wrapperOf(c); ok && idx[1] < len(c.Args) {
+				return exprStr(c.Args[idx[1]]), true
+			}
+		}
+		return "", false
+	}
+	// type-predicate wrappers: bool functions of (…, data.Types, …, value) — a call of one is a type test
+	// like Types.Is, provided the wrapper answers true only after Types.Is answered true for that value
+	wrapper := map[types.Object][2]int{} // wrapper → (index of the Types parameter, index of the value parameter)
 	for _, fd := range funcDecls(npkg) {
+		f, ok := info.Defs[fd.Name].(*types.Func)
+		if !ok || fd.Body == nil {
+			continue
+		}
+		sig := f.Type().(*types.Signature)
+		if sig.Results().Len() != 1 {
+			continue
+		}
+		if b, ok := sig.Results().At(0).Type().Underlying().(*types.Basic); !ok || b.Kind() != types.Bool {
+			continue
+		}
+		ti, vi := -1, -1
+		for i := 0; i < sig.Params().Len(); i++ {
+			pt := sig.Params().At(i).Type()
+			if isNamed(pt, dataPath, "Types") {
+				ti = i
+			} else if isNamed(pt, dataPath, "Value") || isNamed(pt, dataPath, "GetValue") {
+				vi = i
+			}
+		}
+		if ti < 0 || vi < 0 {
+			continue
+		}
+		tObj, vObj := paramObjAt(info, fd, ti), paramObjAt(info, fd, vi)
+		if tObj == nil || vObj == nil {
+			continue
+		}
+		// does it consult Is on its parameters at all?
+		consults := false
+		ast.Inspect(fd.Body, func(n ast.Node) bool {
+			if c, ok := n.(*ast.CallExpr); ok {
+				if se, ok := ast.Unparen(c.Fun).(*ast.SelectorExpr); ok && se.Sel.Name == "Is" && len(c.Args) == 1 {
+					if id, ok := ast.Unparen(se.X).(*ast.Ident); ok && info.Uses[id] == tObj {
+						consults = true
+					}
+				}
+			}
+			return true
+		})
+		if !consults {
+			continue
+		}
+		wrapper[f] = [2]int{ti, vi}
+		// every `return true` lies behind a true answer of declared.Is(value)
+		type st struct{ passed bool }
+		var early token.Pos
+		h := &Hooks{Info: info}
+		h.Copy = func(s State) State { c := *s.(*st); return &c }
+		h.Join = func(a, b State) State { return &st{a.(*st).passed && b.(*st).passed} }
+		h.Equal = func(a, b State) bool { return *a.(*st) == *b.(*st) }
+		h.Cond = func(e ast.Expr, truth bool, s State) State {
+			if c, ok := ast.Unparen(e).(*ast.CallExpr); ok && truth {
+				if se, ok := ast.Unparen(c.Fun).(*ast.SelectorExpr); ok && se.Sel.Name == "Is" && len(c.Args) == 1 {
+					tid, ok1 := ast.Unparen(se.X).(*ast.Ident)
+					vid, ok2 := ast.Unparen(c.Args[0]).(*ast.Ident)
+					if ok1 && ok2 && info.Uses[tid] == tObj && info.Uses[vid] == vObj {
+						s.(*st).passed = true
+					}
+				}
+			}
+			return s
+		}
+		h.Return = func(rs *ast.ReturnStmt, s State) {
+			if len(rs.Results) != 1 || early.IsValid() {
+				return
+			}
+			res := ast.Unparen(rs.Results[0])
+			if exprStr(res) == "true" && !s.(*st).passed {
+				early = rs.Pos()
+			}
+			// return declared.Is(value) is the test itself; any other non-constant answer is not understood
+			if exprStr(res) != "true" && exprStr(res) != "false" {
+				if c, ok := res.(*ast.CallExpr); ok {
+					if se, ok := ast.Unparen(c.Fun).(*ast.SelectorExpr); ok && se.Sel.Name == "Is" {
+						return
+					}
+				}
+				if !s.(*st).passed {
+					early = rs.Pos()
+				}
+			}
+		}
+		WalkFunc(h, fd.Body, &st{})
+		key := funcKey(npkg, fd) + "#predicate-tests"
+		if early.IsValid() {
+			r.bad(key, early, "this type predicate answers true on a path on which the declared type's Is(value) was not consulted (a memo or fast path): a value of another type is accepted at every boundary that uses it")
+		} else {
+			r.ok(key, fd.Pos(), "answers true only after the declared type's Is(value) answered true")
+		}
+	}
+	wrapperOf = func(c *ast.CallExpr) ([2]int, bool) {
+		idx, ok := wrapper[calleeOf(info, c)]
+		return idx, ok
+	}
+	for _, fd := range funcDecls(npkg) {
+		if _, isWrapper := wrapper[info.Defs[fd.Name]]; isWrapper {
+			continue // judged above
+		}
 		// boundary functions: those with a parameter or local of type data.Value that is tested
 		has := false
 		ast.Inspect(fd.Body, func(n ast.Node) bool {
